@@ -404,13 +404,13 @@ class Template:
     def source(self):
         """Return the template source code for this :class:`.Template`."""
 
-        return _get_module_info_from_callable(self.callable_).source
+        return self._mmarker.source
 
     @property
     def code(self):
         """Return the module source code for this :class:`.Template`."""
 
-        return _get_module_info_from_callable(self.callable_).code
+        return self._mmarker.code
 
     @util.memoized_property
     def cache(self):
@@ -570,6 +570,7 @@ class DefTemplate(Template):
         self.include_error_handler = parent.include_error_handler
         self.enable_loop = parent.enable_loop
         self.lookup = parent.lookup
+        self._mmarker = parent._mmarker
 
     def get_def(self, name):
         return self.parent.get_def(name)
